@@ -23,6 +23,7 @@ COQ = os.path.join(ROOT, "coq")
 sys.path.insert(0, os.path.join(ROOT, "tools"))
 import monitors  # noqa: E402
 import twins  # noqa: E402
+import gen_check  # noqa: E402
 
 KINDS = ["lru", "mru", "fifo", "rr", "lfu", "lfuda", "tlru", "utlru", "ut_map", "ut_set"]
 ALL = list(range(10))
@@ -648,6 +649,21 @@ def proof_part(prop, res):
                 res["discharged"] += 1
                 res["theorems"].append(nme)
         res["assumptions"][m] = {k: (v or "Closed under the global context") for k, v in asm.items()}
+    # tie (g): the current source of each container the property covers, translated and proved equal to its literal machine
+    if prop not in ("C06", "C07"):
+        for ki in PROP_KINDS[prop]:
+            kd = KINDS[ki]
+            if kd not in gen_check.BRIDGES:
+                continue
+            r = gen_check.bridge(kd, REPO, BUILD, COQ)
+            res["obligations"] += 1
+            res["extra"].setdefault("source_translation", {})[kd] = dict(
+                ok=r["ok"], theorems=r["theorems"], what=r["what"], detail=r["detail"][-600:])
+            if r["ok"]:
+                res["discharged"] += 1
+                res["theorems"] += ["%s.%s" % (gen_check.BRIDGES[kd][2], t) for t in r["theorems"]]
+            else:
+                res["broken"].append(dict(what=r["what"] + " no longer checks", detail=r["detail"][-2500:], container=kd))
     if not ok:
         # some file of the development does not compile: if it is one this property depends on, the .vo test above caught it
         res["coq_log_tail"] = lg[-1500:]
@@ -777,7 +793,7 @@ def decide(prop, res, rundir):
         # a proof obligation, the build or the correspondence broke and the property's own monitor found no
         # failing input in this run's traces: search with a bigger budget before giving up
         found = None
-        if res["diffs"] or res["crashes"]:
+        if res["diffs"] or res["crashes"] or any(b.get("container") for b in res["broken"]):
             found = deeper_search(prop, res, rundir)
         if found:
             print("VIOLATION property=%s replay=%s" % (prop, os.path.relpath(found, OUTROOT)))
@@ -804,7 +820,8 @@ def decide(prop, res, rundir):
 
 def deeper_search(prop, res, rundir):
     """the property's monitor over a 10x budget of fresh sequences on the kinds that disagreed"""
-    kinds = sorted({KINDS.index(d["kind"]) for d in res["diffs"]} | {KINDS.index(c["kind"]) for c in res["crashes"]})
+    kinds = sorted({KINDS.index(d["kind"]) for d in res["diffs"]} | {KINDS.index(c["kind"]) for c in res["crashes"]} |
+                   {KINDS.index(b["container"]) for b in res["broken"] if b.get("container")})
     known = load_known()
     for k in kinds:
         for sd in range(res["seed"] + 7, res["seed"] + 12):
